@@ -202,7 +202,9 @@ def ex_command(draw, depth=0):
         r = draw(st.sampled_from(["a", "b", "c", "x", "\\a", "\\x"]))   # only registers we fill without '@'
         if draw(st.integers(0, 4)) == 0:
             # a register whose script overwrites the register it is running from
-            body = draw(st.sampled_from(["1y %s|p|p|p|p|p|p|p|p", "2y %s\n4d", "1d %s|1p|2p|3p|$p", "rs %s\nx\n.\n1p\n2p", "y %s|y %s|=|=|=|="]))
+            body = draw(st.sampled_from(["1y %s|p|p|p|p|p|p|p|p", "2y %s\n4d", "1d %s|1p|2p|3p|$p", "rs %s\nx\n.\n1p\n2p", "y %s|y %s|=|=|=|=",
+                                         # a register that runs itself: bounded nesting, no stack overflow
+                                         "@%s", "1p|@%s", "ra %s", "=\n@%s\n="]))
             rr = r[-1]
             return "rs " + rr + "\n" + body.replace("%s", rr) + "\n.\n" + "@" + rr + "\n"
         return ad + draw(st.sampled_from(["@ ", "ra "])) + r + "\n"
